@@ -21,7 +21,7 @@ import (
 func init() {
 	core.Register(&core.Simple{
 		Id: "C02", Lvl: "exploration", Quick: 420, Thorough: 14000, PerBatch: 140, Width: 140, Timeout: 2400,
-		RuleText: "each case builds one well-formed client session as a byte stream — control (handshake + login + 8-20 pipelined requests of ~25 kinds, payloads from empty to 60 KiB), download, upload (with/without resource fork), folder download (with an action script) or folder upload (in half of them onto a partial left by an interrupted earlier upload, i.e. through the resume branch) — and delivers the same bytes to identical fresh servers under a baseline (one segment) and 6-8 other partitions: 1-byte, fixed k in {2,3,5,11,12,13,16,20,22,23}, a single cut at position p (p sweeps 1..64 across the cases of a run), cuts at -1/0/+1 around a structural boundary (handshake end, transaction and field headers, preamble, FILP/fork/item headers), and seeded random partitions; outcomes compared: normalised multiset of transactions written back (server-chosen ids, reference numbers, chat ids, dates and password hashes blanked), the observer's inbox, a snapshot of config dir + file root, and for transfers the bytes written and files created. distinct = (session kind, partition class); non-trivial = every variant",
+		RuleText: "each case builds one well-formed client session as a byte stream — control (handshake + login + 8-20 pipelined requests of ~25 kinds, payloads from empty to 60 KiB), download, upload (with/without resource fork), folder download (with an action script of send / skip / resume-with-resume-record) or folder upload (in half of them onto a partial left by an interrupted earlier upload, i.e. through the resume branch) — and delivers the same bytes to identical fresh servers under a baseline (one segment) and 6-8 other partitions: 1-byte, fixed k in {2,3,5,11,12,13,16,20,22,23}, a single cut at position p (p sweeps 1..64 across the cases of a run), cuts at -1/0/+1 around a structural boundary (handshake end, transaction and field headers, preamble, FILP/fork/item headers), and seeded random partitions; outcomes compared: normalised multiset of transactions written back (server-chosen ids, reference numbers, chat ids, dates and password hashes blanked), the observer's inbox, a snapshot of config dir + file root, and for transfers the bytes written and files created. distinct = (session kind, partition class); non-trivial = every variant",
 		Case:     runCase,
 	})
 }
@@ -241,17 +241,27 @@ func buildTransfer(r *core.Rand, kind string) xferSession {
 	case "folder-download":
 		// dir contains: inner.txt, sub/ (deep.txt), .hidden(skipped) -> items: inner.txt, sub, sub/deep.txt
 		actions := []byte{0, 1} // initial action after the preamble
-		script := core.Pick(r, [][]int{{1, 1, 1}, {3, 1, 1}, {1, 3, 3}, {1, 1, 3}})
+		// action 2 = resume: the client holds a part of that file already and sends a resume record with its offset
+		script := core.Pick(r, [][]int{{1, 1, 1}, {3, 1, 1}, {1, 3, 3}, {1, 1, 3}, {2, 1, 1}, {1, 1, 2}, {2, 1, 2}})
 		kindsOfItem := []bool{false, true, false} // inner.txt (file), sub (dir), sub/deep.txt (file)
+		bnd := []int{16, 18}
 		for i, a := range script {
 			actions = append(actions, 0, byte(a))
-			if a == 1 && !kindsOfItem[i] {
+			bnd = append(bnd, 16+len(actions))
+			if a == 2 {
+				rd := rc.ResumeData(rc.Fork{Type: [4]byte{'D', 'A', 'T', 'A'}, Size: uint32(1 + r.Intn(3))})
+				actions = append(actions, rc.U16(len(rd))...)
+				bnd = append(bnd, 16+len(actions), 16+len(actions)+4, 16+len(actions)+42)
+				actions = append(actions, rd...)
+				bnd = append(bnd, 16+len(actions))
+			}
+			if (a == 1 || a == 2) && !kindsOfItem[i] {
 				actions = append(actions, 0, 3) // after a file was sent the client asks for the next item
 			}
 		}
 		s.request = func(cl *refclient.Client) ([]byte, error) { return ref(cl.Call(210, rc.FS(201, "dir"))) }
 		s.stream = func(ref []byte) []byte { return append(rc.Preamble(ref, 0), actions...) }
-		s.boundaries = []int{16, 18, 20, 22}
+		s.boundaries = bnd
 	case "folder-upload":
 		var body []byte
 		var bnd []int
